@@ -6,8 +6,9 @@
    the full statement; K14 is a second zone of the bounded theorem. *)
 From Coq Require Import String.
 Require Import OV.Base.Bytes OV.Base.PyInt OV.Base.Str OV.Base.Regex OV.Base.C04_Tmpl.
-Require Import OV.Gen.C04_Sanitize OV.Gen.C04_Concrete OV.Model.C04 OV.Model.C04_Spec OV.Model.C04_Sweep.
-Require Import OV.Proofs.C04_Regex OV.Proofs.C04 OV.Proofs.C04_Render OV.Proofs.C04_Bounded OV.Proofs.C04_Refute.
+Require Import OV.Gen.Unicode OV.Gen.C04_Sanitize OV.Gen.C04_Concrete OV.Model.C04 OV.Model.C04_Spec OV.Model.C04_Sweep.
+Require Import OV.Proofs.C04_Regex OV.Proofs.C04 OV.Proofs.C04_Render OV.Proofs.C04_Bounded OV.Proofs.C04_Refute OV.Proofs.C04_Multi.
+Require Import OV.Proofs.C04_Abs OV.Proofs.C04_Whole OV.Proofs.C04_WholeR.
 Open Scope N_scope.
 
 (* 1. no key of the documented list has been dropped; every generated key is non-empty over [a-z_] *)
@@ -116,6 +117,30 @@ Theorem C04_rendering_masked_cmd2 : forall k K d, forallb key_char k = true -> c
 Proof. exact rendering_masked_cmd2. Qed.
 Print Assumptions C04_rendering_masked_cmd2.
 
+(* the two renderings whose pattern backtracks through ['"][^'"]*key: existence of a match by completeness of the
+   matcher, uniqueness of what it reads by language soundness + counting quotes (Proofs/C04_Quote.v, C11_Regex.v) *)
+Theorem C04_rendering_masked_json_prefix : forall k K d, forallb key_char k = true -> casing_of k K -> forallb ascii_digit d = true ->
+  forall q1 pfx q2 w1 w2 u q3 q4 v mask,
+  is_quote q1 = true -> is_quote q2 = true -> is_quote q3 = true -> is_quote q4 = true ->
+  forallb quoted_char pfx = true -> forallb is_space w1 = true -> forallb is_space w2 = true -> opt_u u ->
+  forallb quoted_char v = true ->
+  re_sub (gen_tp2_7 k) (t2 mask) (q1 :: pfx ++ K ++ d ++ q2 :: w1 ++ 58 :: w2 ++ u ++ q3 :: v ++ [q4])
+  = q1 :: pfx ++ K ++ d ++ q2 :: w1 ++ 58 :: w2 ++ u ++ q3 :: mask ++ [q4].
+Proof. exact rendering_masked_json_prefix. Qed.
+Print Assumptions C04_rendering_masked_json_prefix.
+
+Theorem C04_rendering_masked_cmd1 : forall k K d, forallb key_char k = true -> casing_of k K -> forallb ascii_digit d = true ->
+  forall q1 pfx q2 w1 w2 dash fl w3 w4 u q3 q4 v mask,
+  is_quote q1 = true -> is_quote q2 = true -> is_quote q3 = true -> is_quote q4 = true ->
+  forallb quoted_char pfx = true -> forallb is_space w1 = true -> forallb is_space w2 = true ->
+  (dash = [] \/ dash = [45]) -> all_in cs_flag fl = true -> (1 <= length fl)%nat ->
+  forallb is_space w3 = true -> forallb is_space w4 = true -> opt_u u -> forallb quoted_char v = true ->
+  re_sub (gen_tp2_8 k) (t2 mask)
+    (q1 :: pfx ++ K ++ d ++ q2 :: w1 ++ 44 :: w2 ++ 39 :: 45 :: dash ++ fl ++ 39 :: w3 ++ 44 :: w4 ++ u ++ q3 :: v ++ [q4])
+  = q1 :: pfx ++ K ++ d ++ q2 :: w1 ++ 44 :: w2 ++ 39 :: 45 :: dash ++ fl ++ 39 :: w3 ++ 44 :: w4 ++ u ++ q3 :: mask ++ [q4].
+Proof. exact rendering_masked_cmd1. Qed.
+Print Assumptions C04_rendering_masked_cmd1.
+
 (* non-vacuity: the hypotheses of the rendering theorems instantiated (key password, mixed casing,
    digit suffix, metacharacters and non-ASCII in the value) *)
 Ltac ex_casing := repeat (constructor; [first [left; reflexivity | right; reflexivity]|]); constructor.
@@ -148,10 +173,26 @@ Proof.
            ltac:(cbn; repeat constructor) eq_refl ltac:(cbn; repeat constructor) eq_refl ltac:(cbn; repeat constructor) eq_refl).
 Qed.
 
+Example C04_rendering_masked_json_prefix_ex :
+  re_sub (gen_tp2_7 (lit "password")) (t2 (lit "***")) (lit "'original_Password2' : u'a b=c'") = lit "'original_Password2' : u'***'".
+Proof.
+  apply (C04_rendering_masked_json_prefix (lit "password") (lit "Password") [50] eq_refl ltac:(ex_casing) eq_refl
+           39 (lit "original_") 39 [32] [32] [117] 39 39 (lit "a b=c") (lit "***")
+           eq_refl eq_refl eq_refl eq_refl eq_refl eq_refl eq_refl (or_intror (or_introl eq_refl)) eq_refl).
+Qed.
+Example C04_rendering_masked_cmd1_ex :
+  re_sub (gen_tp2_8 (lit "password")) (t2 (lit "***")) (lit "'--os-PASSWORD', '--x', u'a b'") = lit "'--os-PASSWORD', '--x', u'***'".
+Proof.
+  apply (C04_rendering_masked_cmd1 (lit "password") (lit "PASSWORD") [] eq_refl ltac:(ex_casing) eq_refl
+           39 (lit "--os-") 39 [] [32] [45] (lit "x") [] [32] [117] 39 39 (lit "a b") (lit "***")
+           eq_refl eq_refl eq_refl eq_refl eq_refl eq_refl eq_refl (or_intror eq_refl) eq_refl ltac:(cbn; repeat constructor)
+           eq_refl eq_refl (or_intror (or_introl eq_refl)) eq_refl).
+Qed.
+
 (* 5. BOUNDED: the WHOLE function (all keys, all twelve substitutions in order) on the finite family
-      Model/C04_Sweep.family_quick = 35 keys x {lower, UPPER, Capitalised, digit-suffixed} x 12 renderings x
-      values / one key x every class representative of the generated sets at lengths 1 and 2 / 35 keys x
-      contexts x masks: outside the zones of the known findings exactly the value is replaced, and a
+      Model/C04_Sweep.family_quick (801 messages) = the complement of the universal theorems 8: the six keys that contain another key x {lower, UPPER,
+      Capitalised, digit-suffixed} x 12 renderings; every key x 4 renderings; one key x class representatives of the generated
+      sets at lengths 1 and 2; 35 keys x another context and mask: outside the zones of the known findings exactly the value is replaced, and a
       second application changes nothing.  Checked by computation (vm_compute), finite, NOT universal. *)
 Theorem C04_mask_whole_bounded : forall c, In c family_quick -> in_zone (case_msg c) = false ->
   mask_password (case_msg c) (case_mask c) = case_want c.
@@ -161,9 +202,21 @@ Theorem C04_idempotent_bounded : forall c, In c family_quick -> in_zone (case_ms
   mask_password (mask_password (case_msg c) (case_mask c)) (case_mask c) = mask_password (case_msg c) (case_mask c).
 Proof. exact idempotent_bounded. Qed.
 Print Assumptions C04_idempotent_bounded.
-Theorem C04_family_size : N.of_nat (length family_quick) = 8022 /\ (exists c, In c family_quick /\ in_zone (case_msg c) = false).
+Theorem C04_family_size : N.of_nat (length family_quick) = 801 /\ (exists c, In c family_quick /\ in_zone (case_msg c) = false).
 Proof. exact family_nonvacuous. Qed.
 Print Assumptions C04_family_size.
+
+(* 5b. BOUNDED: four secrets under the same key and rendering in one message (4 keys x 12 renderings; 36 of the 48
+       messages lie outside the zones): every one of them is replaced — a substitution that stops after a fixed
+       number of matches would fail here *)
+Theorem C04_many_secrets_bounded : forall c, In c family_multi -> in_zone (fst c) = false ->
+  mask_password (fst c) (snd (snd c)) = fst (snd c) /\ mask_password (fst (snd c)) (snd (snd c)) = fst (snd c).
+Proof. exact many_secrets_bounded. Qed.
+Print Assumptions C04_many_secrets_bounded.
+Theorem C04_many_secrets_size : N.of_nat (length family_multi) = 48 /\
+  N.of_nat (length (filter (fun c => negb (in_zone (fst c))) family_multi)) = 36.
+Proof. exact family_multi_nonvacuous. Qed.
+Print Assumptions C04_many_secrets_size.
 
 (* 6. the full statement (two secrets in neutral text) and its refutation by the wildcard pattern (K12) *)
 Definition C04_full_statement : Prop := full_statement.   (* Proofs/C04_Refute.v: two supported renderings in neutral text *)
@@ -176,3 +229,283 @@ Theorem C04_refuted_wildcard :
   k12_once <> k12_twice /\ zone_K12 k12_witness = true.
 Proof. exact refuted_wildcard. Qed.
 Print Assumptions C04_refuted_wildcard.
+
+(* 7. K14 (found by this property's oracle): one secret in neutral text is NOT always masked exactly — `--K value`
+      with an earlier key of the list a proper suffix of K and a flag-like value also masks the next word.  The zone
+      is narrow: the same value under the suffix key itself, or a value that is not entirely --?[A-z]+, is outside
+      it and is masked exactly. *)
+Definition C04_single_statement : Prop := single_statement.
+Theorem C04_refuted_K14 :
+  ~ C04_single_statement /\
+  mask_password k14_witness (lit "***") = lit " --auth_password *** ***" /\
+  zone_K14 k14_witness = true /\ zone_K12 k14_witness = false /\
+  mask_password (lit " --password -ab 1") (lit "***") = lit " --password *** 1" /\
+  zone_K14 (lit " --password -ab 1") = false /\
+  mask_password (lit " --auth_password -ab1 1") (lit "***") = lit " --auth_password *** 1" /\
+  zone_K14 (lit " --auth_password -ab1 1") = false.
+Proof. exact refuted_K14. Qed.
+Print Assumptions C04_refuted_K14.
+
+(* 8. UNIVERSAL whole-function theorems.  For EVERY generated key, every casing, digit suffix, optional white space,
+      every value and mask of the rendering's class (all lengths), every surrounding text pre / post without quote,
+      '-', '<', '=', '>' characters — under decidable side conditions on the input:
+        only_at   : the key, in the patterns' case-insensitive sense, starts in the message at the rendered position(s) only
+                    (so it does not occur in pre, post, the value or the mask);
+        others_absent : no OTHER sanitize key occurs in lower(message) (hence K must not contain another key);
+      stated for the message and for the masked message —
+      the WHOLE function (all keys in order, all twelve substitutions of the key in order) replaces exactly the value,
+      and applied to its own result changes nothing.  Proof: the pre-test skips every other key; the designated
+      pattern rewrites the value (rendering derivation in context); every other pattern of the key cannot match
+      anywhere in the message (verified abstract checker C04_Abs.v, run per key by the kernel). *)
+(* k=v (bare) *)
+Theorem C04_whole_bare : forall k K d w1 w2 v mask pre post,
+  In k gen_keys ->
+  casing_of k K ->
+  forallb ascii_digit d = true ->
+  forallb is_space w1 = true ->
+  forallb is_space w2 = true ->
+  forallb bare_char v = true ->
+  (1 <= length v)%nat ->
+  forallb bare_char mask = true ->
+  (1 <= length mask)%nat ->
+  forallb ctx_char pre = true ->
+  forallb ctx_char post = true ->
+  hd_notin cs_bare post = true ->
+  only_at gen_ci_table k (msg_bare pre K d w1 w2 v post) [length pre] = true ->
+  only_at gen_ci_table k (msg_bare pre K d w1 w2 mask post) [length pre] = true ->
+  others_absent k (msg_bare pre K d w1 w2 v post) = true ->
+  others_absent k (msg_bare pre K d w1 w2 mask post) = true ->
+  mask_password (msg_bare pre K d w1 w2 v post) mask = msg_bare pre K d w1 w2 mask post /\ mask_password (msg_bare pre K d w1 w2 mask post) mask = msg_bare pre K d w1 w2 mask post.
+Proof. exact whole_bare. Qed.
+Print Assumptions C04_whole_bare.
+
+(* k SQvSQ *)
+Theorem C04_whole_kq : forall k K d w1 q1 q2 v mask pre post,
+  In k gen_keys ->
+  casing_of k K ->
+  forallb ascii_digit d = true ->
+  forallb is_space w1 = true ->
+  (1 <= length w1)%nat ->
+  is_quote q1 = true ->
+  is_quote q2 = true ->
+  forallb quoted_char v = true ->
+  forallb quoted_char mask = true ->
+  forallb ctx_char pre = true ->
+  forallb ctx_char post = true ->
+  only_at gen_ci_table k (msg_kq pre K d w1 q1 v q2 post) [length pre] = true ->
+  only_at gen_ci_table k (msg_kq pre K d w1 q1 mask q2 post) [length pre] = true ->
+  others_absent k (msg_kq pre K d w1 q1 v q2 post) = true ->
+  others_absent k (msg_kq pre K d w1 q1 mask q2 post) = true ->
+  mask_password (msg_kq pre K d w1 q1 v q2 post) mask = msg_kq pre K d w1 q1 mask q2 post /\ mask_password (msg_kq pre K d w1 q1 mask q2 post) mask = msg_kq pre K d w1 q1 mask q2 post.
+Proof. exact whole_kq. Qed.
+Print Assumptions C04_whole_kq.
+
+(* <k>v</k> *)
+Theorem C04_whole_xml : forall k K d K' d' v mask pre post,
+  In k gen_keys ->
+  casing_of k K ->
+  forallb ascii_digit d = true ->
+  casing_of k K' ->
+  forallb ascii_digit d' = true ->
+  forallb xml_char v = true ->
+  forallb xml_char mask = true ->
+  forallb ctx_char pre = true ->
+  forallb ctx_char post = true ->
+  only_at gen_ci_table k (msg_xml pre K d v K' d' post) (xml_offsets pre K d v) = true ->
+  only_at gen_ci_table k (msg_xml pre K d mask K' d' post) (xml_offsets pre K d mask) = true ->
+  others_absent k (msg_xml pre K d v K' d' post) = true ->
+  others_absent k (msg_xml pre K d mask K' d' post) = true ->
+  mask_password (msg_xml pre K d v K' d' post) mask = msg_xml pre K d mask K' d' post /\ mask_password (msg_xml pre K d mask K' d' post) mask = msg_xml pre K d mask K' d' post.
+Proof. exact whole_xml. Qed.
+Print Assumptions C04_whole_xml.
+
+(* k --flag v *)
+Theorem C04_whole_cmd2 : forall k K d w1 dash fl w2 w3 v mask pre post,
+  In k gen_keys ->
+  casing_of k K ->
+  forallb ascii_digit d = true ->
+  forallb is_space w1 = true ->
+  (dash = [] \/ dash = [45]) ->
+  all_in cs_flag fl = true ->
+  (1 <= length fl)%nat ->
+  forallb is_space w2 = true ->
+  (1 <= length w2)%nat ->
+  forallb is_space w3 = true ->
+  forallb nonspace_char v = true ->
+  (1 <= length v)%nat ->
+  forallb nonspace_char mask = true ->
+  (1 <= length mask)%nat ->
+  forallb ctx_char pre = true ->
+  forallb ctx_char post = true ->
+  hd_notin cs_nonspace (w3 ++ post) = true ->
+  hd_notin py_space post = true ->
+  only_at gen_ci_table k (msg_cmd2 pre K d w1 dash fl w2 v w3 post) [length pre] = true ->
+  only_at gen_ci_table k (msg_cmd2 pre K d w1 dash fl w2 mask w3 post) [length pre] = true ->
+  others_absent k (msg_cmd2 pre K d w1 dash fl w2 v w3 post) = true ->
+  others_absent k (msg_cmd2 pre K d w1 dash fl w2 mask w3 post) = true ->
+  mask_password (msg_cmd2 pre K d w1 dash fl w2 v w3 post) mask = msg_cmd2 pre K d w1 dash fl w2 mask w3 post /\ mask_password (msg_cmd2 pre K d w1 dash fl w2 mask w3 post) mask = msg_cmd2 pre K d w1 dash fl w2 mask w3 post.
+Proof. exact whole_cmd2. Qed.
+Print Assumptions C04_whole_cmd2.
+
+(* --k v (value not starting with SQ-SQ) *)
+Theorem C04_whole_dd : forall k K d w1 w2 v mask pre post,
+  In k gen_keys ->
+  casing_of k K ->
+  forallb ascii_digit d = true ->
+  forallb is_space w1 = true ->
+  (1 <= length w1)%nat ->
+  forallb is_space w2 = true ->
+  forallb dd_char v = true ->
+  (1 <= length v)%nat ->
+  hd_notin [(45, 45)] v = true ->
+  forallb dd_char mask = true ->
+  (1 <= length mask)%nat ->
+  hd_notin [(45, 45)] mask = true ->
+  forallb ctx_char pre = true ->
+  forallb ctx_char post = true ->
+  hd_notin cs_dd (w2 ++ post) = true ->
+  hd_notin py_space post = true ->
+  only_at gen_ci_table k (msg_dd pre K d w1 v w2 post) [(length pre + 2)%nat] = true ->
+  only_at gen_ci_table k (msg_dd pre K d w1 mask w2 post) [(length pre + 2)%nat] = true ->
+  others_absent k (msg_dd pre K d w1 v w2 post) = true ->
+  others_absent k (msg_dd pre K d w1 mask w2 post) = true ->
+  mask_password (msg_dd pre K d w1 v w2 post) mask = msg_dd pre K d w1 mask w2 post /\ mask_password (msg_dd pre K d w1 mask w2 post) mask = msg_dd pre K d w1 mask w2 post.
+Proof. exact whole_dd. Qed.
+Print Assumptions C04_whole_dd.
+
+(* SQ…kSQ: uSQvSQ (non-empty prefix) *)
+Theorem C04_whole_jp : forall k K d q1 pfx q2 w1 w2 u q3 q4 v mask pre post,
+  In k gen_keys ->
+  casing_of k K ->
+  forallb ascii_digit d = true ->
+  is_quote q1 = true ->
+  is_quote q2 = true ->
+  is_quote q3 = true ->
+  is_quote q4 = true ->
+  forallb quoted_char pfx = true ->
+  (1 <= length pfx)%nat ->
+  forallb is_space w1 = true ->
+  forallb is_space w2 = true ->
+  opt_u u ->
+  forallb quoted_char v = true ->
+  forallb quoted_char mask = true ->
+  forallb ctx_char pre = true ->
+  forallb ctx_char post = true ->
+  only_at gen_ci_table k (msg_jp pre q1 pfx K d q2 w1 w2 u q3 v q4 post) [(length pre + 1 + length pfx)%nat] = true ->
+  only_at gen_ci_table k (msg_jp pre q1 pfx K d q2 w1 w2 u q3 mask q4 post) [(length pre + 1 + length pfx)%nat] = true ->
+  others_absent k (msg_jp pre q1 pfx K d q2 w1 w2 u q3 v q4 post) = true ->
+  others_absent k (msg_jp pre q1 pfx K d q2 w1 w2 u q3 mask q4 post) = true ->
+  mask_password (msg_jp pre q1 pfx K d q2 w1 w2 u q3 v q4 post) mask = msg_jp pre q1 pfx K d q2 w1 w2 u q3 mask q4 post /\ mask_password (msg_jp pre q1 pfx K d q2 w1 w2 u q3 mask q4 post) mask = msg_jp pre q1 pfx K d q2 w1 w2 u q3 mask q4 post.
+Proof. exact whole_jp. Qed.
+Print Assumptions C04_whole_jp.
+
+(* k = DQvDQ / k = SQvSQ *)
+Theorem C04_whole_eq : forall k K d w1 w2 q v mask pre post,
+  In k gen_keys ->
+  casing_of k K ->
+  forallb ascii_digit d = true ->
+  forallb is_space w1 = true ->
+  forallb is_space w2 = true ->
+  (q = 34 \/ q = 39) ->
+  forallb quoted_char v = true ->
+  forallb quoted_char mask = true ->
+  forallb ctx_char pre = true ->
+  forallb ctx_char post = true ->
+  only_at gen_ci_table k (msg_eq pre K d w1 w2 q v post) [length pre] = true ->
+  only_at gen_ci_table k (msg_eq pre K d w1 w2 q mask post) [length pre] = true ->
+  others_absent k (msg_eq pre K d w1 w2 q v post) = true ->
+  others_absent k (msg_eq pre K d w1 w2 q mask post) = true ->
+  mask_password (msg_eq pre K d w1 w2 q v post) mask = msg_eq pre K d w1 w2 q mask post /\ mask_password (msg_eq pre K d w1 w2 q mask post) mask = msg_eq pre K d w1 w2 q mask post.
+Proof. exact whole_eq. Qed.
+Print Assumptions C04_whole_eq.
+
+(* DQkDQ: DQvDQ / SQkSQ: SQvSQ *)
+Theorem C04_whole_json : forall k K d q1 q2 w1 w2 q3 q4 v mask pre post,
+  In k gen_keys ->
+  casing_of k K ->
+  forallb ascii_digit d = true ->
+  is_quote q1 = true ->
+  is_quote q2 = true ->
+  is_quote q3 = true ->
+  is_quote q4 = true ->
+  forallb is_space w1 = true ->
+  forallb is_space w2 = true ->
+  forallb quoted_char v = true ->
+  forallb quoted_char mask = true ->
+  forallb ctx_char pre = true ->
+  forallb ctx_char post = true ->
+  only_at gen_ci_table k (msg_json pre q1 K d q2 w1 w2 q3 v q4 post) [(length pre + 1)%nat] = true ->
+  only_at gen_ci_table k (msg_json pre q1 K d q2 w1 w2 q3 mask q4 post) [(length pre + 1)%nat] = true ->
+  others_absent k (msg_json pre q1 K d q2 w1 w2 q3 v q4 post) = true ->
+  others_absent k (msg_json pre q1 K d q2 w1 w2 q3 mask q4 post) = true ->
+  mask_password (msg_json pre q1 K d q2 w1 w2 q3 v q4 post) mask = msg_json pre q1 K d q2 w1 w2 q3 mask q4 post /\ mask_password (msg_json pre q1 K d q2 w1 w2 q3 mask q4 post) mask = msg_json pre q1 K d q2 w1 w2 q3 mask q4 post.
+Proof. exact whole_json. Qed.
+Print Assumptions C04_whole_json.
+
+(* SQkSQ, SQ--flagSQ, SQvSQ *)
+Theorem C04_whole_cmd1 : forall k K d q1 pfx q2 w1 w2 dash fl w3 w4 u q3 q4 v mask pre post,
+  In k gen_keys ->
+  casing_of k K ->
+  forallb ascii_digit d = true ->
+  is_quote q1 = true ->
+  is_quote q2 = true ->
+  is_quote q3 = true ->
+  is_quote q4 = true ->
+  forallb quoted_char pfx = true ->
+  forallb is_space w1 = true ->
+  forallb is_space w2 = true ->
+  (dash = [] \/ dash = [45]) ->
+  all_in cs_flag fl = true ->
+  (1 <= length fl)%nat ->
+  forallb is_space w3 = true ->
+  forallb is_space w4 = true ->
+  opt_u u ->
+  forallb quoted_char v = true ->
+  forallb quoted_char mask = true ->
+  forallb ctx_char pre = true ->
+  forallb ctx_char post = true ->
+  only_at gen_ci_table k (msg_cmd1 pre q1 pfx K d q2 w1 w2 dash fl w3 w4 u q3 v q4 post) [(length pre + 1 + length pfx)%nat] = true ->
+  only_at gen_ci_table k (msg_cmd1 pre q1 pfx K d q2 w1 w2 dash fl w3 w4 u q3 mask q4 post) [(length pre + 1 + length pfx)%nat] = true ->
+  others_absent k (msg_cmd1 pre q1 pfx K d q2 w1 w2 dash fl w3 w4 u q3 v q4 post) = true ->
+  others_absent k (msg_cmd1 pre q1 pfx K d q2 w1 w2 dash fl w3 w4 u q3 mask q4 post) = true ->
+  mask_password (msg_cmd1 pre q1 pfx K d q2 w1 w2 dash fl w3 w4 u q3 v q4 post) mask = msg_cmd1 pre q1 pfx K d q2 w1 w2 dash fl w3 w4 u q3 mask q4 post /\ mask_password (msg_cmd1 pre q1 pfx K d q2 w1 w2 dash fl w3 w4 u q3 mask q4 post) mask = msg_cmd1 pre q1 pfx K d q2 w1 w2 dash fl w3 w4 u q3 mask q4 post.
+Proof. exact whole_cmd1. Qed.
+Print Assumptions C04_whole_cmd1.
+
+(* non-vacuity: instances with every side condition evaluated *)
+Ltac vr := vm_compute; reflexivity.
+Example C04_whole_bare_ex :
+  mask_password (lit "run now PassWord7 = s3^cret ok") (lit "***") = lit "run now PassWord7 = *** ok" /\
+  mask_password (lit "run now PassWord7 = *** ok") (lit "***") = lit "run now PassWord7 = *** ok".
+Proof.
+  apply (C04_whole_bare (lit "password") (lit "PassWord") [55] [32] [32] (lit "s3^cret") (lit "***") (lit "run now ") (lit " ok")
+           (in_gen_keys (lit "password") ltac:(vr)) ltac:(ex_casing) eq_refl eq_refl eq_refl eq_refl ltac:(cbn; repeat constructor) eq_refl ltac:(cbn; repeat constructor)
+           eq_refl eq_refl ltac:(vr) ltac:(vr) ltac:(vr) ltac:(vr) ltac:(vr)).
+Qed.
+Example C04_whole_eq_ex :
+  mask_password (lit "x: ADMIN_PASS = ") (lit "***") = lit "x: ADMIN_PASS = " .
+Proof. vr. Qed.
+Example C04_whole_json_ex :
+  mask_password ([123] ++ [39] ++ lit "Token" ++ [39; 58; 32; 39] ++ lit "a b.c" ++ [39; 125]) (lit "***")
+  = [123] ++ [39] ++ lit "Token" ++ [39; 58; 32; 39] ++ lit "***" ++ [39; 125] /\
+  mask_password ([123] ++ [39] ++ lit "Token" ++ [39; 58; 32; 39] ++ lit "***" ++ [39; 125]) (lit "***")
+  = [123] ++ [39] ++ lit "Token" ++ [39; 58; 32; 39] ++ lit "***" ++ [39; 125].
+Proof.
+  apply (C04_whole_json (lit "token") (lit "Token") [] 39 39 [] [32] 39 39 (lit "a b.c") (lit "***") [123] [125]
+           (in_gen_keys (lit "token") ltac:(vr)) ltac:(ex_casing) eq_refl eq_refl eq_refl eq_refl eq_refl eq_refl eq_refl eq_refl eq_refl
+           eq_refl eq_refl ltac:(vr) ltac:(vr) ltac:(vr) ltac:(vr)).
+Qed.
+Example C04_whole_xml_ex :
+  mask_password (lit "<SslKey>a 'b' = c</sslkey> done") (lit "?") = lit "<SslKey>?</sslkey> done" /\
+  mask_password (lit "<SslKey>?</sslkey> done") (lit "?") = lit "<SslKey>?</sslkey> done".
+Proof.
+  apply (C04_whole_xml (lit "sslkey") (lit "SslKey") [] (lit "sslkey") [] (lit "a 'b' = c") (lit "?") [] (lit " done")
+           (in_gen_keys (lit "sslkey") ltac:(vr)) ltac:(ex_casing) eq_refl ltac:(ex_casing) eq_refl eq_refl eq_refl eq_refl eq_refl
+           ltac:(vr) ltac:(vr) ltac:(vr) ltac:(vr)).
+Qed.
+
+(* which keys can satisfy others_absent at all: those that contain no other sanitize key *)
+Definition solo_keys : list str := filter (fun k => forallb (fun k' => beq k' k || negb (occursb k' k)) gen_keys) gen_keys.
+Theorem C04_solo_keys : N.of_nat (length solo_keys) = 29 /\ N.of_nat (length gen_keys) = 35.
+Proof. vm_compute. split; reflexivity. Qed.
+Print Assumptions C04_solo_keys.
